@@ -121,6 +121,8 @@ pub struct Case {
     pub tls: bool,
     /// `dinit=1`: use the shim type that does not override `on_init`
     pub dinit: bool,
+    /// the transport accepts at most this many bytes per write() call (0 = everything): short writes
+    pub wcap: usize,
     // tls mode only
     pub clientcert: bool,
     /// minimum ClientHello size (0 = rustls default hello)
@@ -439,6 +441,7 @@ pub fn parse_case(lines: &[&str], tls_mode: bool) -> Result<Case, (usize, String
         lim: 16_777_215,
         tls: false,
         dinit: false,
+        wcap: 0,
         clientcert: false,
         bighello: 0,
         pre: Vec::new(),
@@ -530,6 +533,9 @@ pub fn parse_case(lines: &[&str], tls_mode: bool) -> Result<Case, (usize, String
                                 return Err(e("bighello must be <= 65000".into()));
                             }
                             c.bighello = n;
+                        }
+                        "wcap" => {
+                            c.wcap = v.parse().map_err(|_| e("wcap must be a number".into()))?;
                         }
                         "dinit" => {
                             c.dinit = match v {
@@ -628,6 +634,7 @@ pub struct CaseState {
     pub split: bool,
     pub fault: Option<Fault>,
     pub opno: u64,
+    pub wcap: usize,
     pub aux: Vec<Aux>,
     /// `tls_client_certs.map(len)` as seen by the last `after_authentication` call
     pub certs: Option<Option<usize>>,
@@ -718,7 +725,7 @@ impl Read for Transport {
                 }
                 Some(RTok::Err(k)) => {
                     cs.delivered.push(RTok::Err(k));
-                    (Err(injected(k)), format!("readerr|{}", k))
+                    (Err(crate::util::injected_read(k)), format!("readerr|{}", k))
                 }
                 Some(RTok::D(mut bytes)) => {
                     if bytes.len() <= buf.len() {
@@ -776,10 +783,11 @@ impl Write for Transport {
                     Err(injected(k))
                 }
                 None => {
+                    let n = if cs.wcap > 0 { buf.len().min(cs.wcap) } else { buf.len() };
                     cs.log.push_str("|w|");
-                    push_hex(&mut cs.log, buf);
+                    push_hex(&mut cs.log, &buf[..n]);
                     cs.log.push('\n');
-                    Ok(buf.len())
+                    Ok(n)
                 }
             }
         })
@@ -1368,6 +1376,7 @@ pub fn run_case(case: Case) -> (String, Vec<Aux>) {
             split: false,
             fault: Some(case.fault),
             opno: 0,
+            wcap: case.wcap,
             aux: parse_aux,
             certs: None,
         };
